@@ -115,3 +115,43 @@ func impostor(c *Conf) {
 	ln.Close()
 	os.RemoveAll(dir)
 }
+
+// handmade is a plugin process that does by hand what plugin.Serve does, without transport security, and listens where
+// a hand-written plugin may: "handmade-abstract" on a Linux abstract socket (announced as unix|@name), "handmade-relative"
+// on a relative socket path (host and plugin share the working directory, which the launching host sets through Cmd.Dir).
+func handmade(c *Conf) {
+	name := fmt.Sprintf("@verif-handmade-%d", os.Getpid())
+	if c.Impostor == "handmade-relative" {
+		name = fmt.Sprintf("handmade-%d.sock", os.Getpid())
+	}
+	ln, err := net.Listen("unix", name)
+	if err != nil {
+		fmt.Fprintln(os.Stderr, "vplugin handmade:", err)
+		os.Exit(3)
+	}
+	impl := &kv.Impl{}
+	done := make(chan struct{})
+	never, _ := io.Pipe()
+	proto := c.LegacyProto
+	if proto == "grpc" {
+		s := &plugin.GRPCServer{Plugins: set("grpc", impl), Server: plugin.DefaultGRPCServer, DoneCh: done, Stdout: never, Stderr: never}
+		if err := s.Init(); err != nil {
+			fmt.Fprintln(os.Stderr, "vplugin handmade:", err)
+			os.Exit(3)
+		}
+		go s.Serve(ln)
+	} else {
+		s := &plugin.RPCServer{Plugins: set("netrpc", impl), Stdout: never, Stderr: never, DoneCh: done}
+		go s.Serve(ln)
+	}
+	fmt.Printf("%d|1|unix|%s|%s|\n", plugin.CoreProtocolVersion, name, proto)
+	os.Stdout.Sync()
+	select {
+	case <-done:
+	case <-time.After(60 * time.Second):
+	}
+	ln.Close()
+	if c.ExitMarker != "" {
+		os.WriteFile(c.ExitMarker, []byte("done"), 0o644)
+	}
+}
